@@ -47,11 +47,23 @@ FIRST_MISSED.update({
  "C16-c2": "limit 0 was only tried on small documents → a 20 000-token document on every entry point",
  "C16-c3": "one source never went through ParseSchemasWithLimit → compared with ParseSchemaWithLimit under limits around the token count",
 })
+FIRST_MISSED.update({
+ "C02-d1": "the same two cyclic fragments were never compared first as mutually exclusive and then side by side → families fragment-pair-exclusive-then-shared (both orders, nested)",
+ "C02-d2": "fan-out families never stood below a subscription root (the adversarial schema had no Subscription type) → subscription-fanout, acyclic and cyclic",
+ "C03-d1": "the escape alphabet had no sign, separator or radix characters → '+', '-', '_', 'x' added (18 symbols, all 4-symbol escapes)",
+ "C03-d2": "no token had a line of 64 KiB → literals with one line of 4 KiB / 64 KiB ± 1 / 100 KB–1 MB in block strings, strings, comments",
+ "C08-d2": "the oneOf variable fault declared a nullable variable WITHOUT default only → variant with a non-null default",
+ "C12-d1": "generated texts the real parser refuses were skipped as out of domain → when the parser MODEL reads the text, its tree goes to the real formatter through the JSON codec (no parser) and must round-trip; variables in directives at every position added to the deterministic documents",
+ "C15-d1": "the argument maps were computed from whatever VariableValues returned → the same (operation, variables) go through the coercion correspondence and the conformance judgement inside C15; single-value defaults of list-typed variables added",
+ "C15-d2": "custom-scalar literals were at most 3 levels deep → nesting 31–34, 65, 300, 1100 (lists, objects, mixed)",
+ "C16-d2": "BuiltIn sources only met limits ≥ their token count → limits below it: no document may come back",
+ "C19-d1": "no name of a document spelled a member name of the encoding → every member name (Alias, TypeCondition, Name, …) in every name and string position; 1 in 8 random names",
+})
 NOTE = {"C02-2": "obsolete: the guarded code (in-progress set) was replaced by the fields-and-fragment memo before it could be evaluated",
         "C09-1": "rebased by hand onto the repaired walker", "C10-3": "rebased by hand onto the polynomial rule", "C11-3": "import hunk rebased by hand"}
 print("| change | file | what it breaks | caught by | first evaluation |")
 print("|---|---|---|---|---|")
-for d in sorted(glob.glob(os.path.join(ROOT, "seeded", "C*-*")), key=lambda x: (os.path.basename(x)[:3], os.path.basename(x)[4] if os.path.basename(x)[4] in "bc" else "a", x)):
+for d in sorted(glob.glob(os.path.join(ROOT, "seeded", "C*-*")), key=lambda x: (os.path.basename(x)[:3], os.path.basename(x)[4] if os.path.basename(x)[4] in "bcdef" else "a", x)):
     name = os.path.basename(d)
     m = json.load(open(os.path.join(d, "meta.json")))
     caught = [c for c, r in m.get("checks_run", {}).items() if r.get("caught")]
